@@ -547,14 +547,16 @@ Definition ids_ok (h1 h2 : hrg) : bool :=
   negb (defect_shared_terminal_id h1 h2) && negb (defect_int_nt_id h1 h2).
 
 (** * Wire decoding and check functions *)
-Definition w_el := (list nat * list nat * bool)%type.
+(** code points travel as binary numbers ([N]) to keep the case files small *)
+Definition d_str (x : list N) : str := map N.to_nat x.
+Definition w_el := (list N * list nat * bool)%type.
 Definition w_node := (nat * nat)%type.
 Definition w_edge := (nat * w_el * list w_node)%type.
 Definition w_graph := (list w_node * list w_edge * list w_node)%type.
 Definition w_rule := (w_el * w_graph)%type.
 Definition w_hrg := (list nat * list w_el * w_el * list (w_el * list w_rule))%type.
 
-Definition d_el (x : w_el) : elabel := let '(n, t, b) := x in {| el_name := n; el_type := t; el_term := b |}.
+Definition d_el (x : w_el) : elabel := let '(n, t, b) := x in {| el_name := d_str n; el_type := t; el_term := b |}.
 Definition d_node (x : w_node) : node := {| n_id := fst x; n_lab := snd x |}.
 Definition d_edge (x : w_edge) : edge :=
   let '(i, l, ns) := x in {| e_id := i; e_lab := d_el l; e_att := map d_node ns |}.
@@ -572,8 +574,9 @@ Definition err_code (e : err) : nat :=
   match e with ValueErr => 1 | TypeErr => 2 | KeyErr => 3 | OtherErr => 4 | FuelErr => 5 end.
 
 (** unique_label_name: (name, names, output).  0 ok; 1 oracle rejects; 10 differs from model *)
-Definition uln_check (x : list nat * list (list nat) * list nat) : nat :=
+Definition uln_check (x : list N * list (list N) * list N) : nat :=
   let '(name, names, out) := x in
+  let name := d_str name in let names := map d_str names in let out := d_str out in
   if negb (unique_ok name names out) then 1
   else match unique_name name names with
        | Some o => if str_eqb o out then 0 else 10
